@@ -32,6 +32,13 @@ theorem int_fails_iff_short (n : Nat) (bs : Bytes) : decodeBE n bs = none ↔ bs
   unfold decodeBE
   split <;> simp [*]
 
+/-- The other direction: re-encoding what was decoded gives back the bytes read, so for each
+width the codec is a bijection between `[0, 256ⁿ)` and the byte strings of length `n`. -/
+theorem int_decode_then_encode (n : Nat) (bs : Bytes) (h : bs.length = n) :
+    (decodeBE n bs).map (encodeBE n) = some bs := by
+  subst h
+  simp [decodeBE, encodeBE_beVal]
+
 /-- Every value of every built-in convertible type survives `into_bytes` then `from_bytes`:
 integers/floats of width 1, 2, 4, 8, 16, `bool`, `char`, `String`, `()`, `Vec<u8>`,
 `Vec<numeric>`, `Vec<bool>`, `Vec<char>`. -/
@@ -46,6 +53,18 @@ theorem pack_unpack (fs : List Bytes) (bs : Bytes) (h : pack fs = some bs)
   have := unpackFrom_pack fs bs [] [] h (by simpa using hlen)
   simp only [List.nil_append, List.append_nil, List.length_nil, Nat.zero_add] at this
   simp [unpack, this]
+
+/-- (exactly the packed inputs are accepted) The generated argument decoder accepts `args` as
+`n` fields `fs` iff `args` is the packing of `fs` — in particular short input, trailing bytes,
+a length prefix pointing beyond the input or overflowing the word, and any re-framing of the
+same bytes are all rejected. -/
+theorem unpack_accepts_exactly_packed (n : Nat) (args : Bytes) (fs : List Bytes)
+    (hlen : args.length < wordLimit) :
+    unpack n args = some fs ↔ fs.length = n ∧ pack fs = some args := by
+  constructor
+  · exact unpack_sound
+  · rintro ⟨rfl, hp⟩
+    exact pack_unpack fs args hp hlen
 
 /-- Trailing bytes after the last field are rejected (`__ptr == __args.len()`). -/
 theorem unpack_trailing_rejected (fs : List Bytes) (bs extra : Bytes) (h : pack fs = some bs)
@@ -214,6 +233,35 @@ theorem truncated_frame_is_eof {Msg : Type} (dec : Bytes → Option Msg) (max : 
         simp only [hc, Except.toOption, Option.any_some, decide_eq_true_eq] at h
         simp [h]
 
+/-- (oracle = theorem) The decidable predicate `framesOk`, which the driver evaluates on the
+observations of the real `read_network_message`, holds of the model's own observation for
+every stream, every fragmentation, every limit and every payload decoder: no clause can fail. -/
+theorem model_satisfies_frames_oracle {Msg : Type} [DecidableEq Msg] (dec : Bytes → Option Msg)
+    (max : Nat) (chunks : List Bytes) :
+    framesOk max chunks.flatten
+      { whole := framesObs dec max [chunks.flatten], split := framesObs dec max chunks,
+        maxReq := maxReq (readFrames dec max chunks).2.2, panicked := false } = [] := by
+  have hw : framesObs dec max [chunks.flatten] = framesObs dec max chunks :=
+    (frames_fragmentation_independent dec max chunks).symm
+  have hstop := frames_stop_at_first_error dec max chunks
+  have hreq : maxReq (readFrames dec max chunks).2.2 ≤ chunkSize :=
+    maxReq_le _ (readFramesLoop_req_le dec max _ chunks)
+  have heq := framesObs_eq dec max chunks
+  have hlim := withinLimit_parseFrames dec max (chunks.flatten.length + 1) chunks.flatten
+  have hle := parseFrames_consumed_le dec max (chunks.flatten.length + 1) chunks.flatten
+  have hrej := rejectPoint_parseFrames dec max (chunks.flatten.length + 1) chunks.flatten
+  unfold framesOk
+  simp only [hw, hstop, beq_self_eq_true, Bool.and_self, if_true, Bool.false_eq_true, if_false,
+    List.nil_append, List.append_nil]
+  rw [heq] at hstop ⊢
+  generalize chunks.flatten = S at *
+  generalize parseFrames dec max (S.length + 1) S = P at *
+  simp only [hreq, hlim, hle, if_true, List.nil_append, List.append_nil, decide_true]
+  by_cases hl : lastIsReject P.1 = true
+  · simp only [hl, if_true, hrej hl, beq_self_eq_true, List.append_nil]
+  · have : lastIsReject P.1 = false := by simpa using hl
+    simp only [this, Bool.false_eq_true, if_false, List.append_nil]
+
 /-! ## job metadata -/
 
 /-- Missing metadata or fewer than 16 bytes is rejected. -/
@@ -301,8 +349,10 @@ end C19
 #print axioms C19.int_roundtrip
 #print axioms C19.int_roundtrip_trailing
 #print axioms C19.int_fails_iff_short
+#print axioms C19.int_decode_then_encode
 #print axioms C19.builtin_roundtrip
 #print axioms C19.pack_unpack
+#print axioms C19.unpack_accepts_exactly_packed
 #print axioms C19.unpack_trailing_rejected
 #print axioms C19.unpack_short_rejected
 #print axioms C19.unpack_length_overflow_rejected
@@ -316,6 +366,7 @@ end C19
 #print axioms C19.buffer_grows_only_with_received_bytes
 #print axioms C19.frames_roundtrip
 #print axioms C19.truncated_frame_is_eof
+#print axioms C19.model_satisfies_frames_oracle
 #print axioms C19.meta_short_rejected
 #print axioms C19.meta_roundtrip
 #print axioms C19.meta_ttl_zero_and_huge_are_lossy
